@@ -156,8 +156,11 @@ def _state(d, fin, crash, ref):
     key order: reload() rebuilds the cache in that order), and the reference model."""
     cache = d._cache
     real_cache = tuple((k, canon(v), _wflag(v)) for k, v in cache.items())
-    fcache = fin.peek()[2][1]
-    if fcache is cache:
+    peek = fin.peek()
+    fcache = peek[2][1] if peek is not None else None
+    if fcache is None:
+        fc = "finaliser-dead"  # the finaliser has already run (it can run only once): nothing is written back at drop
+    elif fcache is cache:
         fc = "is-cache"
     else:
         fc = tuple((k, canon(v), k in cache and cache[k] is v) for k, v in fcache.items())
